@@ -22,7 +22,9 @@ ALIAS_POOL = ["<esc>", "<CR>", "<enter>", "<return>", "<tab>", "<BS>", "<del>", 
 RAW_POOL = ["\x1b", "\r", "\n", "\t", "\x7f", "\x08", "\x17", "\x16", "\x12", "\x1b[A", "\x1b[B", "\x1b[C", "\x1b[D", "\x1b[1~", "\x1b[3~", "\x1b[4~",
             "\x1b[5~", "\x1b[15~", "\x1b[24~", "\x1b[99~", "\x1b[1;5D", "\x1bOP", "\x1bOS", "\x1bOx", "\x1b[", "\x1bO", "\x1b[1", "\x1b[Z", "\x1bx",
             "\x00", "\x01", "\x1f", "\x9b", "\x85"]
-CHARS = ["a", "b", "x", "w", "d", " ", "0", "$", ".", ">", "<", "\\", "é", "ß", "日", "🙂", "é", "/", ":", "i", "R", "v"]
+CHARS = ["a", "b", "x", "w", "d", " ", "0", "$", ".", ">", "<", "\\", "é", "ß", "日", "🙂", "é", "/", ":", "i", "R", "v",
+         # every length and the edges of the lead-byte ranges: U+07FF, U+0800, U+FFFD / fullwidth / variation selector (lead EF), U+10000, U+10FFFF
+         "\u07ff", "\u0800", "\ufffd", "Ａ", "，", "❤\ufe0f", "\U00010000", "\U0010ffff", "\ud7ff", "\ue000"]
 
 
 def model_keys(m):
@@ -177,6 +179,12 @@ def run(chk, binary):
             meta.append((mode, text, parts, ch, keys))
         # the same renderings after an earlier command whose key string holds '<', '>' or backslashes that are not aliases:
         # what the reader learnt from one key string must not reach the next
+        # a key string that is given up half way (an unknown ex command): the keys behind it are dropped for good, the
+        # next command starts with its own keys only - the result is that of the scenario alone
+        ch0 = choices[0]
+        fail = ":bogus<CR>" + rng.choice(["$", "dd", "x", "ihello<esc>", "G", "rZ", "<esc>dd"])
+        jobs.append({"args": ["--json", "-m", fail, "-m", render(parts, ch0), "-c", "name=cur", "v", "-m", "gg0", "-c", "name=buf", "vG$"], "stdin": text})
+        meta.append((mode, text, parts, ch0, fail + " | " + render(parts, ch0)))
         pre = rng.choice(PREFIX_CMDS)
         for ch in choices:
             keys = render(parts, ch)
@@ -200,7 +208,7 @@ def run(chk, binary):
     jobs = []
     meta = []
     # "<b>" (one alphanumeric) is an alias by the code grammar, so it is not in this pool
-    pool = ["<", ">", "<bc>", "a<b", "<foo>", "x<yy>z", "\\<", "\\<esc>", "é", "日本", "🙂", "é", " ", "<<", ">>", "<=>", "\\\\", "a\\b", "<1 2>", "<-->"]
+    pool = ["<", ">", "<bc>", "a<b", "<foo>", "x<yy>z", "\\<", "\\<esc>", "é", "日本", "🙂", "é", " ", "<<", ">>", "<=>", "\\\\", "a\\b", "<1 2>", "<-->", "Ａ", "❤\ufe0f", "，x", "\ufffd", "\U00010000"]
     for _ in range(600 if thorough else 120):
         t = "".join(rng.choice(pool) for _ in range(rng.randint(1, 5)))
         jobs.append({"args": ["-m", "i" + t + "\x1b"], "stdin": ""})
